@@ -289,6 +289,9 @@ func (sp *Specs) LoadSpecFile(path, pkgName string) {
 			fs.Trusted = true
 			cur = fs
 			sp.Funcs[fs.Key] = cur
+			if word == "functype" {
+				functypeNames[lastPart(fs.Key)] = true
+			}
 		case "requires", "ensures", "decreases", "assigns", "ghost":
 			if cur == nil {
 				errf(l, "%s outside func block", word)
